@@ -915,6 +915,25 @@ impl World {
                 ));
                 self.objs.insert(n(1), Obj::Cell(c));
             }
+            "map_cmk" => {
+                // like map_c with a sel: function, but the function CONSTRUCTS a primitive each time it is called (during
+                // propagation, or when the cell's lazy initial value is forced): the selected stream / cell wrapped in a
+                // fresh identity map - same denotation as the selected object itself
+                let (f, mut deps) = self.parse_f1(w[3]);
+                deps.extend(kdeps);
+                let c = self.cell(n(2)).map(lambda1(
+                    move |v: &V| {
+                        let _ = &kept;
+                        match app1(&f, v) {
+                            V::RS(h, st) => V::RS(h, st.map(|x: &V| x.clone())),
+                            V::RC(h, c) => V::RC(h, c.map(|x: &V| x.clone())),
+                            x => x,
+                        }
+                    },
+                    deps,
+                ));
+                self.objs.insert(n(1), Obj::Cell(c));
+            }
             "lift" => {
                 let f = parse_fn(w[2]);
                 let cs: Vec<Cell<V>> = w[3..].iter().map(|x| self.cell(x.parse().unwrap())).collect();
